@@ -19,6 +19,10 @@ struct RgnDecl {
   enum K { INT, BOOL, REF, UNK } kind;
   int pointee; // REF / UNK regions: index of the region the references stored in them point into
   K pref;      // UNK regions: the kind of scalar mostly stored in them
+  // filled in the entry block by region_copy (region_cast for UNK) from region `from`; its
+  // references are then derived from the references of `from` by gep_ref
+  bool filled_by_copy = false;
+  int from = -1;
 };
 struct RefDecl {
   var_t v;
@@ -55,6 +59,7 @@ public:
   unsigned blocks_left;
   unsigned next_label = 0;
   std::vector<unsigned> good_refs; // references initialised in the entry block (dominates everything)
+  std::vector<unsigned> maybe_null; // references that were the lhs of something that may yield null
 
   GenRgn(verif::Tape &tape, const GenOpts &opts, const RgnGenOpts &ropts, RgnProgram &prog)
       : t(tape), o(opts), ro(ropts), p(prog), g(tape, opts, prog), blocks_left(opts.max_blocks) {}
@@ -78,8 +83,23 @@ public:
       }
       add_region(k, i);
     }
-    if (ro.unknown_regions && t.pick(5) == 4)
-      add_region(RgnDecl::UNK, nr);
+    if (t.pick(3) == 2) {
+      // shadow of region 0: target of a region_copy in the entry block
+      add_region(RgnDecl::INT, (unsigned)p.rgns.size());
+      p.rgns.back().filled_by_copy = true;
+      p.rgns.back().from = 0;
+    }
+    if (ro.unknown_regions && t.pick(5) == 4) {
+      add_region(RgnDecl::UNK, (unsigned)p.rgns.size());
+      if (t.flag()) {
+        // filled by region_cast from a typed region
+        RgnDecl &u = p.rgns.back();
+        u.filled_by_copy = true;
+        u.from = (int)t.pick((unsigned)p.rgns.size() - 1);
+        if (p.rgns[(unsigned)u.from].filled_by_copy)
+          u.from = 0;
+      }
+    }
     for (auto &r : p.rgns)
       if (r.kind == RgnDecl::REF || r.kind == RgnDecl::UNK) {
         // pointee: a non-reference, typed region (region 0 always qualifies)
@@ -91,10 +111,17 @@ public:
         p.typing.pointee.emplace(r.v, p.rgns[r.pointee].v);
         unsigned pk = t.pick(4);
         r.pref = r.kind == RgnDecl::REF ? RgnDecl::REF : pk <= 1 ? RgnDecl::INT : pk == 2 ? RgnDecl::BOOL : RgnDecl::REF;
+        if (r.kind == RgnDecl::UNK && r.filled_by_copy)
+          r.pref = p.rgns[(unsigned)r.from].kind;
       }
     unsigned nrefs = 2 + t.pick(4);
     for (unsigned i = 0; i < nrefs; i++) {
       unsigned home = i == 0 ? 0 : t.pick((unsigned)p.rgns.size());
+      // a region filled by copy gets at least one reference
+      if (i >= 1)
+        for (unsigned j = 0; j < p.rgns.size(); j++)
+          if (p.rgns[j].filled_by_copy && ref_with_home(j, -1) < 0 && nrefs - i <= 2)
+            home = j;
       p.refs.push_back(RefDecl{var_t(vf["r" + std::to_string(i)], crab::REF_TYPE), home});
       p.typing.home.emplace(p.refs.back().v, p.rgns[home].v);
     }
@@ -114,8 +141,16 @@ public:
   unsigned any_ref() { return t.pick((unsigned)p.refs.size()); }
   // a reference that the entry block initialised (mostly), else any
   unsigned use_ref() {
-    if (!good_refs.empty() && t.pick(16) != 15)
+    if (!good_refs.empty() && t.pick(16) != 15) {
+      // references that may be null are mostly kept for constraints, guards and selects
+      std::vector<unsigned> sure;
+      for (unsigned r : good_refs)
+        if (std::find(maybe_null.begin(), maybe_null.end(), r) == maybe_null.end())
+          sure.push_back(r);
+      if (!sure.empty() && t.pick(8) != 7)
+        return sure[t.pick((unsigned)sure.size())];
       return good_refs[t.pick((unsigned)good_refs.size())];
+    }
     return any_ref();
   }
   // another reference with the given home region (or -1)
@@ -221,7 +256,7 @@ public:
   // store through ri, then (often) read a cell of the same region through another reference
   void store_then_check(block_t &b, unsigned ri) {
     store(b, ri);
-    if (t.pick(3) == 0) {
+    if (t.pick(2) == 0) {
       int q = ref_with_home(p.refs[ri].home, (int)ri, true);
       load(b, q >= 0 ? (unsigned)q : ri);
     }
@@ -239,11 +274,16 @@ public:
           b.load_from_ref(g.ivar(), rv(ri), r.v); // fall back to an integer load
         else
           b.store_to_ref(rv(ri), r.v, var_or_cst_t::make_reference_null());
-      } else
+      } else {
         b.load_from_ref(rv((unsigned)s), rv(ri), r.v);
+        maybe_null.push_back((unsigned)s);
+      }
       break;
     }
     }
+  }
+  void add_tag(block_t &b, unsigned a) {
+    b.intrinsic("add_tag", {}, {var_or_cst_t(home(a)), var_or_cst_t(rv(a)), var_or_cst_t(z_number((int64_t)(1 + t.pick(4))), crab::variable_type(crab::INT_TYPE, o.int_width))});
   }
   void make_ref(block_t &b, unsigned ri, bool then_store) {
     b.make_ref(rv(ri), home(ri), size_operand(), p.as_man.mk_tag());
@@ -254,6 +294,11 @@ public:
   ref_cst_t ref_constraint() {
     unsigned a = use_ref();
     unsigned k = t.pick(12);
+    if (k <= 3 && !maybe_null.empty() && t.pick(8) != 7) {
+      unsigned c = maybe_null[t.pick((unsigned)maybe_null.size())];
+      if (is_good(c)) // initialised on every path
+        a = c;
+    }
     switch (k) {
     case 0: return ref_cst_t::mk_null(rv(a));
     case 1: return ref_cst_t::mk_not_null(rv(a));
@@ -281,7 +326,7 @@ public:
 
   // ---- region statements ---------------------------------------------------------------------
   void region_stmt(block_t &b) {
-    static const int kinds[] = {0, 0, 0, 0, 0, 0, 1, 1, 1, 1, 2, 2, 3, 3, 4, 4, 5, 5, 6, 7, 8, 9, 10, 11, 12, 13, 14, 15, 16, 16};
+    static const int kinds[] = {0, 0, 0, 0, 0, 0, 1, 1, 1, 1, 2, 2, 2, 3, 3, 4, 4, 5, 5, 6, 7, 8, 9, 10, 11, 12, 12, 13, 14, 15, 16, 16};
     int k = kinds[t.pick(sizeof(kinds) / sizeof(kinds[0]))];
     switch (k) {
     case 0: load(b, use_ref()); break;
@@ -317,6 +362,8 @@ public:
       unsigned l = any_ref();
       unsigned x = use_ref(), y = use_ref();
       unsigned m = t.pick(4);
+      if (m >= 2)
+        maybe_null.push_back(l);
       if (m == 2)
         b.select_ref_null_true_value(rv(l), home(l), g.bvar(), rv(y), home(y));
       else if (m == 3)
@@ -349,10 +396,19 @@ public:
         store(b, use_ref());
       break;
     case 11: { unsigned a = use_ref(); b.ref_to_int(home(a), rv(a), g.ivar()); break; }
-    case 12:
-      if (t.pick(3) == 0) { unsigned a = any_ref(); b.int_to_ref(g.ivar(), home(a), rv(a)); }
-      else load(b, use_ref());
+    case 12: {
+      unsigned m = t.pick(4);
+      if (m == 0) { unsigned a = any_ref(); b.int_to_ref(g.ivar(), home(a), rv(a)); maybe_null.push_back(a); }
+      else if (m <= 2) { // round trip through an integer
+        unsigned q = use_ref(), a = any_ref();
+        var_t i = g.ivar();
+        b.ref_to_int(home(q), rv(q), i);
+        if (t.pick(3) == 0)
+          b.add(i, i, z_number(4));
+        b.int_to_ref(i, home(a), rv(a));
+      } else load(b, use_ref());
       break;
+    }
     case 13: { // region_cast through the unknown region
       int u = -1;
       for (unsigned j = 0; j < p.rgns.size(); j++)
@@ -371,10 +427,9 @@ public:
       break;
     }
     case 14:
-      if (ro.tags) {
-        unsigned a = use_ref();
-        b.intrinsic("add_tag", {}, {var_or_cst_t(home(a)), var_or_cst_t(rv(a)), var_or_cst_t(z_number((int64_t)(1 + t.pick(4))), crab::variable_type(crab::INT_TYPE, o.int_width))});
-      } else
+      if (ro.tags)
+        add_tag(b, use_ref());
+      else
         load(b, use_ref());
       break;
     case 15: b.bool_assign(g.bvar(), ref_constraint()); break;
@@ -427,6 +482,15 @@ public:
     }
     if (mode == 8) { // reference guard, direct
       ref_cst_t c = ref_constraint();
+      gt.assume_ref(c);
+      ge.assume_ref(c.negate());
+      return;
+    }
+    if (mode == 9) { // null test in the form the numerical domains can represent (p > null / p <= null)
+      unsigned a = use_ref();
+      if (!maybe_null.empty() && is_good(maybe_null.back()))
+        a = maybe_null.back();
+      ref_cst_t c = ref_cst_t::mk_gt_null(rv(a));
       gt.assume_ref(c);
       ge.assume_ref(c.negate());
       return;
@@ -538,35 +602,89 @@ public:
   }
 
   // entry block: region_init of (almost) every region, then most references are created
-  // and their cell written, so that later loads are mostly of stored cells
+  // and their cell written, so that later loads are mostly of stored cells; regions filled by
+  // region_copy / region_cast get their content and their references afterwards
   void prologue(block_t &b) {
     for (auto &r : p.rgns)
       if (t.pick(16) != 15)
         b.region_init(r.v);
+    // regions in which all the references of the entry block are aliases of the first one
+    // ... and regions nobody stores to in the entry block (the domain updates a region strongly
+    // as long as "nobody wrote yet", whatever its number of references)
+    std::vector<bool> singleton, unwritten;
+    for (unsigned j = 0; j < p.rgns.size(); j++) {
+      unsigned m = t.pick(6);
+      singleton.push_back(m == 2 || m == 3);
+      unwritten.push_back(m == 5);
+    }
     for (unsigned i = 0; i < p.refs.size(); i++) {
+      if (homed(i).filled_by_copy)
+        continue;
       unsigned c = t.pick(16);
       if (c == 15)
         continue; // left uninitialised
       c %= 8;
+      if (singleton[p.refs[i].home])
+        c = 4;
       int q = -1;
-      if (c == 5 || c == 6) {
-        // alias / other cell of an earlier reference of the same region
+      if (c >= 4 && c <= 6) {
+        // alias (4,5) / other cell (6) of an earlier reference of the same region
         std::vector<int> cand;
         for (unsigned j : good_refs)
-          if (p.refs[j].home == p.refs[i].home)
+          if (p.refs[j].home == p.refs[i].home && std::find(maybe_null.begin(), maybe_null.end(), j) == maybe_null.end())
             cand.push_back((int)j);
         if (!cand.empty())
           q = cand[t.pick((unsigned)cand.size())];
       }
       if (q >= 0)
-        b.gep_ref(rv(i), home(i), rv((unsigned)q), home((unsigned)q), c == 5 ? lin_t(z_number(0)) : gep_offset(true));
+        b.gep_ref(rv(i), home(i), rv((unsigned)q), home((unsigned)q), c != 6 ? lin_t(z_number(0)) : gep_offset(true));
       else {
         b.make_ref(rv(i), home(i), size_operand(), p.as_man.mk_tag());
         p.n_make_ref++;
+        // the allocation succeeded (gives the domain a definite non-null fact to keep right)
+        unsigned nn = t.pick(8);
+        if (nn == 6)
+          b.assume_ref(ref_cst_t::mk_gt_null(rv(i)));
+        else if (nn == 7)
+          b.intrinsic("nonnull", {}, {var_or_cst_t(rv(i))});
       }
       good_refs.push_back(i);
-      if (t.pick(16) != 15)
+      if (t.pick(16) != 15 && !unwritten[p.refs[i].home])
         store(b, i);
+      if (ro.tags && t.pick(4) == 3)
+        add_tag(b, i);
+      if (t.pick(8) == 7) {
+        // null in the executions where the condition holds
+        b.select_ref_null_true_value(rv(i), home(i), g.bvar(), rv(i), home(i));
+        maybe_null.push_back(i);
+      }
+    }
+    for (unsigned ri = 0; ri < p.rgns.size(); ri++) {
+      const RgnDecl &r = p.rgns[ri];
+      if (!r.filled_by_copy)
+        continue;
+      const RgnDecl &src = p.rgns[(unsigned)r.from];
+      if (t.pick(8) != 7) {
+        if (r.kind == RgnDecl::UNK)
+          b.region_cast(src.v, r.v);
+        else
+          b.region_copy(r.v, src.v);
+      }
+      for (unsigned i = 0; i < p.refs.size(); i++) {
+        if (p.refs[i].home != ri)
+          continue;
+        std::vector<unsigned> cand;
+        for (unsigned j : good_refs)
+          if ((int)p.refs[j].home == r.from && std::find(maybe_null.begin(), maybe_null.end(), j) == maybe_null.end())
+            cand.push_back(j);
+        if (cand.empty())
+          break;
+        unsigned a = cand[t.pick((unsigned)cand.size())];
+        b.gep_ref(rv(i), home(i), rv(a), home(a), t.pick(4) == 3 ? gep_offset(true) : lin_t(z_number(0)));
+        good_refs.push_back(i);
+        if (t.pick(3) == 0)
+          store(b, i);
+      }
     }
   }
 
